@@ -103,7 +103,7 @@ def make_semantics(kind, actrule='*'):
                            'raiseIndexError': IndexError, 'raiseStopIteration': StopIteration,
                            'raiseAssertionError': AssertionError, 'raiseRuntimeError': RuntimeError,
                            'raiseLookupError': LookupError}[kind]
-                    raise exc('boom')
+                    raise exc('boom: bad arguments')
                 return ast
             return ast
         return action
@@ -388,7 +388,7 @@ def make_semantics2(kind, rules, params=None):
                 raise FailedSemantics('first')
             return ast
         if hit(ast):
-            raise excs[kind]('boom')
+            raise excs[kind]('boom: bad arguments')
         return ast
 
     first = set()
